@@ -1,6 +1,6 @@
 SPECIFICATION Spec
 CONSTANTS
-  MaxClock = 3
+  MaxClock = 2
   MaxSnaps = 2
   MaxCheckouts = 1
   MaxEdits = 2
